@@ -201,7 +201,7 @@ def _fmt_ints(q, cs):
             j = e + 1
         return ",".join(out).replace(" ", ",")
     if cs == "title":
-        return ", ".join(str(x) for x in q)
+        return ";".join(str(x) for x in q)
     return " ".join(str(x) for x in q)
 
 
